@@ -27,7 +27,7 @@ import (
 //	  => <ok|err> <errmsg> <reader called> <consumer key> <code> <message> <GetHeader per query>
 //	     <GetHeaders per query, '|' separated lists> <body> <Submit result> <client token> <ctx token> <deadline>
 //	  client.Runtime.Submit against a RoundTripper that returns the crafted response.
-//	  flags = c<op client>p<preset client>o<op ctx>r<runtime ctx>t<timeout>g<debug>e<reader error>
+//	  flags = c<op client>p<preset client>o<op ctx>r<runtime ctx>t<timeout>g<debug>e<reader error>n<op client has no transport of its own>
 //	    ctx states: 0 none/nil, 1 live, 2 cancelled, 3 live with a deadline; timeout: 0 zero, 1 default, 2 one hour
 //	M <value> => <media type> <errmsg>
 //	  mime.ParseMediaType on the part of <value> before the first ';' (hand model of the stdlib parser)
@@ -226,11 +226,25 @@ func c13Submit(in []string) []string {
 		}),
 		Context: c13Ctx(c13Flag(flags, 'o'), "op"),
 	}
+	bareOpClient := false
 	if c13Flag(flags, 'c') == '1' {
-		op.Client = &http.Client{Transport: &c13RT{tok: "op", seen: seen, mk: mk}}
+		if c13Flag(flags, 'n') == '1' {
+			// a per-operation client without a transport of its own: it uses http.DefaultTransport,
+			// which stands in for "the per-operation client" here (restored after the call)
+			saved := http.DefaultTransport
+			http.DefaultTransport = &c13RT{tok: "op", seen: seen, mk: mk}
+			defer func() { http.DefaultTransport = saved }()
+			op.Client = &http.Client{}
+			bareOpClient = true
+		} else {
+			op.Client = &http.Client{Transport: &c13RT{tok: "op", seen: seen, mk: mk}}
+		}
 	}
 
 	res, err := rt.Submit(op)
+	if bareOpClient && op.Client.Transport != nil {
+		seen.client += "+caller-client-modified"
+	}
 
 	kind, msg := "ok", ""
 	if err != nil {
@@ -478,7 +492,7 @@ func c13GenS(r *proto.Rng) []string {
 		return pick(common, "0113")
 	}
 	flags := string([]byte{'c', pick('0', "01"), 'p', pick('0', "01"), 'o', ctx('0'), 'r', ctx('1'),
-		't', pick('1', "012"), 'g', pick('0', "01"), 'e', pick('0', "01")})
+		't', pick('1', "012"), 'g', pick('0', "01"), 'e', pick('0', "01"), 'n', pick('0', "01")})
 	return c13Case(hdrs, dflt, keys, code, status, queries, string(body), flags)
 }
 
